@@ -301,6 +301,18 @@ func sameNameSets() []modset {
 		one("grouping:deep-diamond", " grouping d { leaf x { type string; } } grouping b { container cb { uses d; } } grouping c { container cc { uses d; } } grouping top { uses b; uses c; container w { uses d; } } container t { uses top; }", "ok"),
 		one("grouping:direct-and-deep-diamond", " grouping d { leaf x { type string; } } grouping b { uses d; } grouping top { uses b; container w { uses d; } } container t { uses top; }", "ok"),
 		one("grouping:nested-definition-cycle", " grouping g { grouping h { container c { uses g; } } uses h; } container t { uses g; }", "error"),
+		// references written with the module's OWN prefix stay local: cycles through them are cycles
+		one("own-prefix:typedef:self", " typedef t { type a:t; } leaf l { type t; }", "error"),
+		one("own-prefix:typedef:cycle2", " typedef t1 { type a:t2; } typedef t2 { type a:t1; } leaf l { type a:t1; }", "error"),
+		one("own-prefix:typedef:cycle2-mixed", " typedef t1 { type t2; } typedef t2 { type a:t1; } leaf l { type t1; }", "error"),
+		one("own-prefix:typedef:chain", " typedef t1 { type a:t2; } typedef t2 { type int8; } leaf l { type a:t1; }", "ok"),
+		one("own-prefix:grouping:self", " grouping g { leaf x { type string; } uses a:g; } container c { uses g; }", "error"),
+		one("own-prefix:grouping:cycle2-deep", " grouping g { container gc { uses a:h; } } grouping h { container hc { uses a:g; } } container c { uses a:g; }", "error"),
+		one("own-prefix:grouping:chain", " grouping g { uses a:h; } grouping h { leaf x { type string; } } container c { uses a:g; }", "ok"),
+		one("own-prefix:identity:self", " identity i { base a:i; } leaf l { type identityref { base a:i; } }", "error"),
+		one("own-prefix:identity:cycle2", " identity i { base a:j; } identity j { base i; } leaf l { type identityref { base i; } }", "error"),
+		one("own-prefix:feature:self", " feature f { if-feature a:f; } leaf l { if-feature a:f; type string; }", "error"),
+		one("own-prefix:feature:cycle2", " feature f { if-feature a:h; } feature h { if-feature f; } leaf l { if-feature f; type string; }", "error"),
 		// the defect sits in the second of two references of one definition (the first one is fine,
 		// and - for features - disabled because no feature is enabled by default)
 		one("second-ref:feature:dangling", " feature x; feature fa { if-feature x; if-feature nosuch; } leaf l { if-feature fa; type string; }", "error"),
